@@ -46,6 +46,8 @@ def run(ctx: Ctx, chk) -> None:
                     chk.ok(rule, key, f"opened for reading (mode {mode!r})", ctx.loc(f, node))
                     continue
                 if live:
+                    # keyed by what is opened how (not by the call's full text: further keyword arguments do not make it another defect)
+                    key = f"{f.fq}::open({path}, mode={mode!r})"
                     chk.refute(rule, key, f"`{norm(node)}` opens the live persistence file with mode {mode!r}: the file is truncated in place before the new content is written, so a crash at any point of the save leaves an empty or partial file (read error or empty registry at next start)", ctx.loc(f, node))
                     continue
                 # written elsewhere: must be followed by an atomic replace onto self.path after the with block closed
@@ -62,6 +64,7 @@ def run(ctx: Ctx, chk) -> None:
                     chk.refute(rule, key, f"`{norm(node)}` writes {path} but it is not atomically moved onto the live path after being closed", ctx.loc(f, node))
     chk.floor(rule, "open() sites in Persistence", n, 2)
     inplace2(ctx, chk)
+    chk.run_rule(load_guard, ctx)
     # replace targets
     for fl in pers.methods.values():
         for f in fl:
@@ -74,6 +77,36 @@ def run(ctx: Ctx, chk) -> None:
                         chk.ok(rule, fkey(f, node), "replace onto the live path", ctx.loc(f, node))
                     else:
                         chk.refute(rule, fkey(f, node), f"`{norm(node)}` does not move the new file onto the live path", ctx.loc(f, node))
+
+
+def load_guard(ctx: Ctx, chk) -> None:
+    rule = "LOAD-GUARD"
+    chk.rule(rule, "a load that failed is never followed by a save: in Gateway.__aenter__ no path from the exceptional exit of persistence.load() reaches persistence.stop() / save() (the final save would overwrite the unreadable - but possibly recoverable - file with the empty or partially loaded registry)")
+    from ..cfg import CFG
+
+    gw = ctx.cls("aiomysensors.gateway.Gateway")
+    f = gw.find_method("__aenter__")
+    if f is None:
+        raise AnalysisError("anchor vanished: Gateway.__aenter__")
+    fi = ctx.inl(f)
+    g = CFG(fi.node)
+
+    def has_call(n, names):
+        return n.ast is not None and n.kind in ("stmt", "test", "with-enter") and any(isinstance(x, ast.Call) and norm(x.func) in names for p_ in n.parts() for x in ast.walk(p_))
+
+    loads = [n for n in g.nodes if has_call(n, ("self.persistence.load",))]
+    savers = [n for n in g.nodes if has_call(n, ("self.persistence.stop", "self.persistence.save"))]
+    if not loads:
+        raise AnalysisError("LOAD-GUARD: persistence.load() not found in Gateway.__aenter__")
+    for ld in loads:
+        chk.instance(rule)
+        key = f"{f.fq}::load-failure"
+        starts = [s_ for s_, lab in ld.succ if lab == "exc"]
+        p = g.reach_avoiding(starts, lambda x: x in savers, lambda x: False, from_succ=False) if starts else None
+        if p is None:
+            chk.ok(rule, key, "a failing load leaves __aenter__ without any save", ctx.loc(f, ld.ast))
+        else:
+            chk.refute(rule, key, f"when persistence.load() raises, the error path runs `{p[-1].text()[:60]}` ({' -> '.join(g.path_text(p)[:4])}): stop() saves the registry as loaded so far over the file that could not be read - the saved data is destroyed by a failed start-up", ctx.loc(f, p[-1].ast))
 
 
 def _fold(ctx: Ctx, f, e: ast.expr):
